@@ -228,7 +228,7 @@ async fn run(input: RunInput, mode: Mode) -> RunOutput {
             j = (j + 1) % n;
         }
         let kind = r.gen_range(0..100);
-        let desc: String;
+        let mut desc: String;
         if let Some((_, dead)) = silent_death {
             if i == dead {
                 continue; // the dead node does nothing any more
@@ -257,7 +257,18 @@ async fn run(input: RunInput, mode: Mode) -> RunOutput {
             if let Ok(p) = &res {
                 w.check(*p == ids[j], "dial-returned-wrong-id", "dial", || "wrong id".into());
             }
-            let res = if hangup { Err(anyhow::anyhow!("hung up")) } else { res };
+            // ... and dial the same peer again at once: the other side may still be busy with the
+            // first connection (its handshake task, its close) when the second one arrives
+            let res = if hangup && r_hangup.gen_bool(0.5) {
+                w.probe("hang-up-then-immediate-re-dial");
+                let again = slots[i].node.net.connect_with_peer_id(addrs[j], ids[j]).await;
+                desc = format!("{desc}+redial:{}", if again.is_ok() { "ok" } else { "err" });
+                again
+            } else if hangup {
+                Err(anyhow::anyhow!("hung up"))
+            } else {
+                res
+            };
             // (without keep-alive a registered connection may already be dead on the remote side -
             // idle timeouts fire at different instants on the two ends - and the tie-break may
             // legitimately keep it over the fresh one, so this is only judged with keep-alive)
